@@ -16,11 +16,16 @@ from vlib import log
 
 LEVEL = "model_checking"
 TERMINATED = 2147483647
-UIDX = 5  # abstract documents of the stripe index (docset_driver::U)
+UIDX = 5  # abstract documents of the stripe index (set to the universe of the generated programs)
 
 # stable texts of the findings recorded for this property (see known_findings.json)
 KF_BITSET = "BitSetDocSet: advance() after a seek past the last document resumes the iteration instead of staying TERMINATED"
 KF_INTERCOUNT = "Intersection::count_including_deleted (dense path) consumes the set but leaves doc() on a stale document of its first leg (score() there can panic)"
+KF_UNIONDANGER = ("BufferedUnionScorer::seek_danger with a target before its buffered window ignores the buffered documents: the lower "
+                  "bound it returns lies beyond the next document of the set")
+KF_UNIONMEMBER = ("BufferedUnionScorer::seek_danger leaves a member that missed in the danger zone; when a later seek_danger succeeds "
+                  "through another member, the stale member's position (a document with the terms of a phrase but not the phrase, "
+                  "or the lead document of an intersection) is emitted as a document of the union, with a wrong score")
 KF_UNIONFILL = "BufferedUnionScorer::fill_buffer leaves score() stale and does not clear the score combiners (scores of later documents are wrong)"
 
 
@@ -184,6 +189,10 @@ def classify(d):
         if how and any(p.get("op") in ("seek", "seek_danger", "fill_bitset_block") for p in prev):
             return "C13 DocSet: " + KF_BITSET + " [sticky end violated by advance() after " + how + "]"
         return "C13 DocSet: advance() on a terminated scorer returned a document (sticky end)"
+    sd = [p for p in d["program"][: d["step"]] if p.get("op") == "seek_danger"]
+    if (union_has_danger_member(d.get("q", {})) and any(not p.get("found") for p in sd) and sd and sd[-1].get("found")
+            and any(not p.get("found") for p in sd[:-1])):
+        return "C13 DocSet: " + KF_UNIONMEMBER
     if d.get("legal") and d.get("data_ok") and d.get("ret_ok") and not d.get("score_ok"):
         if any(p.get("op") == "fill_buffer" for p in prev) or op == "fill_buffer":
             return "C13 DocSet: " + KF_UNIONFILL + f" [score() after {op}]"
@@ -196,6 +205,9 @@ def classify(d):
         return f"C13 DocSet: doc() names a document after {op}() but score() panics: " + re.sub(r"\d+", "N", c["score_panic"])[:160]
     if not d.get("legal"):
         return f"C13 DocSet: harness issued an illegal call {op} (tool problem)"
+    if (op == "seek_danger" and not c.get("found") and prev and prev[-1].get("op") == "seek_danger" and not prev[-1].get("found")
+            and prev[-1].get("lb", 0) > c.get("t", 0) and qkinds(d.get("q", {})) & {"bool", "dismax"}):
+        return "C13 DocSet: " + KF_UNIONDANGER
     return f"C13 DocSet: {op}() returned a value the sorted-sequence contract does not explain (expected document {d.get('expected_doc')})"
 
 
@@ -204,9 +216,29 @@ def may_be_intersection(q):
     k = q.get("k")
     if k == "bool":
         cl = q.get("cl", [])
-        return any(c["o"] == "must" for c in cl) or q.get("msm", 0) >= 2 or (len(cl) == 1 and may_be_intersection(cl[0]["q"]))
+        return any(c["o"] == "must" for c in cl) or q.get("msm", 0) >= 2 or any(c["o"] != "mustnot" and may_be_intersection(c["q"]) for c in cl)
     if k == "boost":
         return may_be_intersection(q["q"])
+    if k == "dismax":
+        return any(may_be_intersection(x) for x in q.get("qs", []))
+    return False
+
+
+def is_phrase_like(q):
+    return q.get("k") in ("phrase", "pprefix", "rphrase") or (q.get("k") in ("boost", "const") and is_phrase_like(q["q"]))
+
+
+def union_has_danger_member(q):
+    """mirror of qlib::union_has_danger_member (only used to word a rejection)"""
+    k = q.get("k")
+    if k == "bool":
+        cl = q.get("cl", [])
+        return (any(union_has_danger_member(c["q"]) for c in cl)
+                or any(c["o"] == "should" and (is_phrase_like(c["q"]) or may_be_intersection(c["q"])) for c in cl))
+    if k == "dismax":
+        return any(union_has_danger_member(x) for x in q.get("qs", [])) or any(is_phrase_like(x) or may_be_intersection(x) for x in q.get("qs", []))
+    if k in ("boost", "const"):
+        return union_has_danger_member(q["q"])
     return False
 
 
@@ -292,8 +324,10 @@ def model_checking(ctx):
 
 
 def replay_generated(ctx):
+    global UIDX
     rng = random.Random(ctx.seed)
     U, depth = (4, 3) if ctx.quick else (5, 4)
+    UIDX = U
     cases = gen_programs(ctx, U, depth)
     ctx.cov["programs_enumerated_by_tlc"] = len(cases)
     rs = [1, 129, 1025, 4097]
@@ -310,7 +344,7 @@ def replay_generated(ctx):
             name, q, scoring = rec[(ci * per_case + k + rng.randrange(3)) % len(rec)]
             # one stripe width per (recipe, S) group keeps the number of large sequences small
             r = random.Random(f"{name}/{S}/{scoring}/{ctx.seed}/{k if not ctx.quick else 0}").choices(rs, rweights)[0]
-            g = groups.setdefault((name, scoring, S, r), {"r": r, "q": q, "scoring": scoring, "recipe": name,
+            g = groups.setdefault((name, scoring, S, r), {"r": r, "u": U, "q": q, "scoring": scoring, "recipe": name,
                                                          "abs": {"s": c["s"], "r": r}, "progs": []})
             g["progs"].append(concretise(c["prog"], r, rng))
     cp = ctx.path("gen_cases.ndjson")
@@ -346,7 +380,14 @@ def known_finding_runs(ctx):
         {"rich": RICH, "q": {"k": "set", "f": "title", "ts": ["t1", "t2"]}, "scoring": False,
          "progs": [[{"op": "seek", "t": TERMINATED}, {"op": "advance"}], [{"op": "advance"}, {"op": "seek", "t": 7000}, {"op": "advance"}]]},
         # Intersection::count_including_deleted, dense path (stripe index, 1025 documents per stripe)
-        {"r": 1025, "q": B([must(T(0b10101)), must(irange(0b00100, "f"))]), "scoring": False, "progs": [[{"op": "fill_buffer"}, {"op": "count"}]]},
+        {"r": 1025, "u": 5, "q": B([must(T(0b10101)), must(irange(0b00100, "f"))]), "scoring": False, "progs": [[{"op": "fill_buffer"}, {"op": "count"}]]},
+        # BufferedUnionScorer::seek_danger before the window (stripes {0,3,4} of 4097 documents)
+        {"r": 4097, "u": 5, "q": B([should(T(0b10001)), should(irange(0b01000))]), "scoring": False,
+         "progs": [[{"op": "seek", "t": 4096}, {"op": "seek_danger", "t": 4097}, {"op": "seek_danger", "t": 10242}]]},
+        # a union member left in the danger zone (stripe index: the phrase s25 s27 matches stripe 0 only, its terms co-occur from 12291 on)
+        {"r": 4097, "u": 5, "q": B([should({"k": "range", "f": "n", "lo": {"b": "in", "v": 18}, "hi": {"b": "in", "v": 18}}),
+                                    should({"k": "phrase", "f": "m", "ts": ["s25", "s27"], "slop": 0})]), "scoring": False,
+         "progs": [[{"op": "seek_danger", "t": 12289}, {"op": "seek_danger", "t": 12290}, {"op": "advance"}]]},
         # BufferedUnionScorer::fill_buffer and scores
         {"rich": RICH, "q": B([should(t("all")), should(t("t0"))]), "scoring": True,
          "progs": [[{"op": "fill_buffer"}, {"op": "advance"}], [{"op": "fill_buffer"}] * 70 + [{"op": "advance"}] * 3]},
@@ -360,7 +401,8 @@ def known_finding_runs(ctx):
     validate(ctx, vlib.read_ndjson(tp), "kf", expect=seen)
     ctx.cov["traces_validated_against_impl"] = before  # these runs are reproductions, not coverage
     rep = {"bitset": any(KF_BITSET in s for s in seen), "unionfill": any(KF_UNIONFILL in s for s in seen),
-           "intersection_count": any(KF_INTERCOUNT in s for s in seen)}
+           "intersection_count": any(KF_INTERCOUNT in s for s in seen),
+           "union_seek_danger": any(KF_UNIONDANGER in s for s in seen), "union_stale_member": any(KF_UNIONMEMBER in s for s in seen)}
     ctx.cov["recorded_findings_reproduced"] = rep
     for k, v in rep.items():
         if not v:
@@ -388,7 +430,7 @@ def binding_selftest(ctx, events):
         "count_off_by_one": (lambda e, c: c.get("op") == "count", lambda e, c: c.update(ret=c["ret"] + 1)),
         "advance_after_end_returns_a_document": (lambda e, c: c.get("op") == "advance" and c.get("ret") == TERMINATED,
                                                  lambda e, c: c.update(ret=e["S"][0], doc_after=e["S"][0])),
-        "score_changed": (lambda e, c: "score" in c, lambda e, c: c.update(score=c["score"] + 9)),
+        "score_changed": (lambda e, c: "score" in c, lambda e, c: c.update(score=c["score"] + 100000)),
         "seek_danger_lower_bound_skips_a_document": (lambda e, c: c.get("op") == "seek_danger" and not c.get("found") and c.get("lb", TERMINATED) < TERMINATED
                                                      and any(d > c["lb"] for d in e["S"]),
                                                      lambda e, c: c.update(lb=min(d for d in e["S"] if d > c["lb"]) + 1)),
@@ -428,8 +470,9 @@ def run(ctx):
     model_checking(ctx)
     ev = replay_generated(ctx)
     if ctx.quick:
-        ev2 = random_programs(ctx, ctx.seed, 3000, 120, 6, 25, "rand")
-        random_programs(ctx, ctx.seed + 1, 6000, 40, 5, 40, "rand_big", ["--bigseg"])
+        ev2 = random_programs(ctx, ctx.seed, 3000, 200, 6, 25, "rand")
+        random_programs(ctx, ctx.seed + 1, 6000, 100, 6, 40, "rand_big", ["--bigseg"])
+        random_programs(ctx, ctx.seed + 2, 1500, 100, 6, 30, "rand_deep", ["--depth", "3"])
     else:
         ev2 = random_programs(ctx, ctx.seed, 3000, 600, 8, 25, "rand")
         for i in range(4):
